@@ -3,7 +3,7 @@
 From Coq Require Import List NArith ZArith String.
 From Mant Require Import Prim.R Prim.Val Model.DispUtil
   Model.DispC01 Model.DispC03 Model.DispC04 Model.DispC05 Model.DispC06 Model.DispC08 Model.DispC09 Model.DispC10
-  Model.DispC11 Model.DispC12 Model.DispC13 Model.DispC14 Model.DispC15 Model.DispC16 Model.DispC20.
+  Model.DispC11 Model.DispC12 Model.DispC13 Model.DispC14 Model.DispC15 Model.DispC16 Model.DispC20 Model.SmbUtils.
 Import ListNotations.
 
 Definition is_unknown (v : val) : bool :=
@@ -15,7 +15,17 @@ Fixpoint first_known (ds : list (string -> list val -> val)) (f : string) (args 
   | d :: r => let v := d f args in if is_unknown v then first_known r f args else v
   end.
 
+(* commands/utils/utils.go has no property of its own: its two helpers are C07's *)
+Definition dispatch_utils (f : string) (args : list val) : val :=
+  match args with
+  | [VB d] =>
+      if String.eqb f "smbutils.nt_unicode" then let (s, n) := get_nt_unicode d in VL [VB s; vN n]
+      else if String.eqb f "smbutils.nt_string" then let (s, n) := get_nt_string d in VL [VB s; vN n]
+      else vunknown
+  | _ => vunknown
+  end.
+
 Definition dispatch_C07 : string -> list val -> val :=
-  first_known [dispatch_C06; dispatch_C03; dispatch_C04; dispatch_C05; dispatch_C08; dispatch_C09; dispatch_C10;
+  first_known [dispatch_utils; dispatch_C06; dispatch_C03; dispatch_C04; dispatch_C05; dispatch_C08; dispatch_C09; dispatch_C10;
                dispatch_C11; dispatch_C12; dispatch_C13; dispatch_C14; dispatch_C15; dispatch_C16; dispatch_C20;
                dispatch_C01].
